@@ -6,8 +6,8 @@ import json, os, shutil, subprocess, sys, time
 
 pid, m = sys.argv[1], sys.argv[2]
 checks = sys.argv[3:] or [pid]
-md = "/tmp/mut/%s/_out/%s" % (pid, m)
-dest = "/verif/seeded/%s-%s" % (pid, m)
+md = "%s/%s/_out/%s" % (os.environ.get("SEED_ROOT", "/tmp/mut"), pid, m)
+dest = "/verif/seeded/%s-%s%s" % (pid, "r2" if "mut2" in os.environ.get("SEED_ROOT", "") else "", m)
 
 
 def sh(cmd, cwd=None, timeout=7200):
